@@ -513,3 +513,36 @@ def endif_protocol(prog):
         obs.append(Ob('ENDIF-PROTOCOL', fn.file, c['l'], fn.q, 'eof-in-branch#%d' % k, VIOLATED if bad else DISCHARGED, bad or '',
                       'assemble() == 0 leads to return -1'))
     return RuleResult('ENDIF-PROTOCOL', obs, 3, {})
+
+
+def not_apply(prog):
+    """NOT-APPLY: in parse_ifdef_expression every place that completes an operand (`state = 1`) is dominated by the test that
+    applies and clears a pending `!` (`if (is_not == 1) { n = !n; is_not = 0; }`).  A path that reaches `state = 1` around
+    it (e.g. after the value of a parenthesised group) leaves the negation pending: `!(A)` evaluates as A and the `!` lands
+    on the next operand."""
+    from nk.cfg import dominators
+    fn = prog.fn('parse_ifdef_expression')
+    dom = dominators(fn)
+    tests = set()
+    for b, bb in fn.blocks.items():
+        cn = fn.nodes.get(bb.get('cond')) if 'cond' in bb else None
+        if cn is not None and any(x['k'] == 'DeclRefExpr' and x.get('n') == 'is_not' for x in walk(cn)):
+            tests.add(b)
+    if not tests:
+        raise AnalysisBroken('NOT-APPLY: no test of is_not in parse_ifdef_expression')
+    obs = []
+    k = 0
+    for n in sorted(fn.nodes.values(), key=lambda x: x['i']):
+        if n['k'] == 'BinaryOperator' and n.get('op') == '=' and strip(kids(n)[0]).get('n') == 'state' and const(kids(n)[1]) == 1:
+            w = fn.where.get(n['i'])
+            if w is None:
+                continue
+            k += 1
+            ok = bool(tests & dom[w[0]])
+            obs.append(Ob('NOT-APPLY', fn.file, n['l'], fn.q, 'state=1#%d' % k, DISCHARGED if ok else VIOLATED,
+                          '' if ok else '`state = 1` at line %d completes an operand on a path that does not pass the `is_not` test: a `!` '
+                          'written before this operand (a parenthesised group) is not applied to it and stays pending for the next '
+                          'operand' % n['l'], 'dominated by the is_not test', False))
+    if not obs:
+        raise AnalysisBroken('NOT-APPLY: no `state = 1` in parse_ifdef_expression')
+    return RuleResult('NOT-APPLY', obs, 1, {})
